@@ -1,5 +1,9 @@
 //! Shared machinery for the palette property checks (see /verif/DESIGN.md).
 pub mod runner;
 pub mod gen;
+pub mod types;
+pub mod ops;
+pub mod cam;
+pub mod reference;
 
 pub use runner::{Fail, Harness, Obs, PropResult, Tier};
